@@ -5,7 +5,7 @@ import numpy as np
 
 from simkit import oracle, scene
 from simkit.errors import HarnessError, InjectedCrash
-from simkit.sim import Sim, draw_sim_config, reset_process_state
+from simkit.sim import Sim, draw_sim_config, park_config, park_profile_config, reset_process_state
 from simkit.util import tb
 
 from . import C01
@@ -41,6 +41,13 @@ def draw_scenario(ch):
     if "fp" in p:
         p["fp"]["num_configs"] = min(p["fp"]["num_configs"], 3)
     sc["post"] = None
+    # session: the lazy series may be the first thing the process does with these exit planes (module-level state is cold), and
+    # an earlier series with OTHER exit planes on the same potential may have been run and dropped before
+    sc["lazy_first"] = ch.bool(0.5, "lazy-first")
+    sc["race"] = ch.bool(0.4, "race-schedule")
+    sc["prelude_planes"] = scene.draw_exit_planes(ch, ns, p_multi=1.0) if ch.bool(0.4, "prelude") else None
+    if sc["prelude_planes"] == p["exit_planes"]:
+        sc["prelude_planes"] = None
     return sc
 
 
@@ -110,6 +117,33 @@ def run_one(run):
     planes = plane_indices(p["exit_planes"], ns)
     sc["planes"] = planes
     extent = scene.potential_extent(p)
+
+    # ---- earlier work of the same process: a series with other exit planes through the same potential, then dropped --------
+    if sc["prelude_planes"] is not None:
+        import gc
+
+        try:
+            pre = run_builder(sc, scene.make_potential(p, exit_planes=scene._ep(sc["prelude_planes"])), lazy=False)
+            del pre
+        except (HarnessError, InjectedCrash):
+            raise
+        except Exception:  # noqa: BLE001 - only history
+            run.note("prelude_raised")
+        gc.collect()
+        run.note("reach_prelude_session")
+
+    # ---- the lazy series, computed before anything else touches these exit planes (checked below) ---------------------------
+    early = None
+    if sc["lazy_first"]:
+        sim0 = run.add_sim(Sim(ch, draw_sim_config(ch, force_threads=sc["race"], write_preempt="park" if sc["race"] else None)))
+        try:
+            with sim0:
+                early = ("ok", sim0.compute(run_builder(sc, scene.make_potential(p), lazy=True, max_batch=knobs["max_batch"])))
+        except (HarnessError, InjectedCrash):
+            raise
+        except Exception as e:  # noqa: BLE001
+            early = ("raise", e)
+        sc["sim"] = sim0.describe()
 
     # ---- configurations and their full (no exit plane) built arrays ------------------------------------------------
     try:
@@ -195,23 +229,47 @@ def run_one(run):
                         run.violate("last-equals-full", sig(sc, "values", mode, {"plane": "last"}), f"out{di}: last exit plane differs from the full run by {d:.3g}")
 
     # ---- subjects --------------------------------------------------------------------------------------------------------
-    try:
-        eager = run_builder(sc, scene.make_potential(p), lazy=False)
-        check_series(eager, "eager")
-    except (HarnessError, InjectedCrash):
-        raise
-    except Exception as e:  # noqa: BLE001
-        run.violate("series-succeeds", sig(sc, "raise", "eager", {"exc": type(e).__name__}), f"eager: {type(e).__name__}: {e} at {tb(e)}")
-    sim = run.add_sim(Sim(ch, draw_sim_config(ch)))
-    try:
-        with sim:
-            lz = sim.compute(run_builder(sc, scene.make_potential(p), lazy=True, max_batch=knobs["max_batch"]))
-        sc["sim"] = sim.describe()
-        check_series(lz, "lazy")
-    except (HarnessError, InjectedCrash):
-        raise
-    except Exception as e:  # noqa: BLE001
-        run.violate("series-succeeds", sig(sc, "raise", "lazy", {"exc": type(e).__name__}), f"lazy: {type(e).__name__}: {e} at {tb(e)}")
+    def eager_subject():
+        try:
+            eager = run_builder(sc, scene.make_potential(p), lazy=False)
+            check_series(eager, "eager")
+        except (HarnessError, InjectedCrash):
+            raise
+        except Exception as e:  # noqa: BLE001
+            run.violate("series-succeeds", sig(sc, "raise", "eager", {"exc": type(e).__name__}), f"eager: {type(e).__name__}: {e} at {tb(e)}")
+
+    def lazy_subject():
+        if early is not None:
+            if early[0] == "ok":
+                check_series(early[1], "lazy")
+            else:
+                e = early[1]
+                run.violate("series-succeeds", sig(sc, "raise", "lazy", {"exc": type(e).__name__}), f"lazy: {type(e).__name__}: {e} at {tb(e)}")
+            return
+        # race runs: a profiling multi-worker schedule that counts the stores into shared objects, then one task delayed at one of them
+        cands = None
+        for step in range(2 if sc["race"] else 1):
+            if not sc["race"]:
+                cfg = draw_sim_config(ch)
+            elif step == 0:
+                cfg = park_profile_config(ch)
+            else:
+                cfg = park_config(ch, cands) if cands else draw_sim_config(ch, force_threads=True, write_preempt=True)
+            sim = run.add_sim(Sim(ch, cfg))
+            try:
+                with sim:
+                    lz = sim.compute(run_builder(sc, scene.make_potential(p), lazy=True, max_batch=knobs["max_batch"]))
+                sc["sim"] = sim.describe()
+                check_series(lz, "lazy")
+            except (HarnessError, InjectedCrash):
+                raise
+            except Exception as e:  # noqa: BLE001
+                run.violate("series-succeeds", sig(sc, "raise", "lazy", {"exc": type(e).__name__}), f"lazy: {type(e).__name__}: {e} at {tb(e)}")
+                break
+            cands = sim.sched.stats.park_candidates
+
+    for subject in ((lazy_subject, eager_subject) if sc["lazy_first"] else (eager_subject, lazy_subject)):
+        subject()
 
     # ---- route B: truncation through the public indexing of a built potential (its own clause) -------------------------------
     if ch.bool(0.5, "route-b") and len(confs) == 1:
